@@ -109,7 +109,7 @@ inductive StepShape (cfg : Cfg) (beh : Beh) (w : World) (k i : Nat) (op : Op) : 
       StepShape cfg beh w k i op (onCore cfg w i k name c f ret)
   | destroyManual (c : Core) (name : String) : op = .destroy i → cfg.manual = true → w.get i = some c →
       StepShape cfg beh w k i op (w.put i none, [.api i k name (apiObs cfg c)])
-  | destroyAuto (c : Core) (name : String) : cfg.manual = false → w.get i = some c →
+  | destroyAuto (c : Core) (name : String) : op = .destroy i → cfg.manual = false → w.get i = some c →
       StepShape cfg beh w k i op (w.put i none, (finalExit ⟨cfg, beh, i, k⟩ { core := c }).2 ++
         [.api i k name (apiObs cfg (finalExit ⟨cfg, beh, i, k⟩ { core := c }).1.core)])
   | save (c : Core) (name : String) (o : ApiObs) : w.get i = some c → StepShape cfg beh w k i op (w, [.api i k name o])
@@ -132,7 +132,7 @@ theorem step_shape (cfg : Cfg) (beh : Beh) (w : World) (k : Nat) (op : Op) :
     rename_i c hget
     split
     · rename_i hm; exact .destroyManual c _ rfl hm hget
-    · rename_i hm; exact .destroyAuto c _ (by simpa using hm) hget
+    · rename_i hm; exact .destroyAuto c _ rfl (by simpa using hm) hget
   · exact .rejected _
   · -- enter
     rename_i c hget
@@ -324,7 +324,7 @@ theorem stepAll_events_inst (cfg : Cfg) (beh : Beh) (w : World) (k : Nat) (op : 
       · exact apiStep_allEv (envPred_inst ⟨cfg, beh, op.inst, k⟩) hf _ e he
       · simp only [List.mem_singleton] at he; rw [he]; rfl
     | destroyManual c name _ hm hget => simp only [List.mem_singleton] at he; rw [he]; rfl
-    | destroyAuto c name hm hget =>
+    | destroyAuto c name _ hm hget =>
       rw [List.mem_append] at he
       rcases he with he | he
       · exact allEv_finalExit (envPred_inst ⟨cfg, beh, op.inst, k⟩) _ e he
@@ -343,7 +343,7 @@ theorem stepAll_other (cfg : Cfg) (beh : Beh) (w : World) (k : Nat) (op : Op) (j
     | rejected name => rfl
     | call tag slot c f ret name htag hget hf => rw [onCore_fst]; exact World.get_put_ne _ _ _ _ hj
     | destroyManual c name _ hm hget => exact World.get_put_ne _ _ _ _ hj
-    | destroyAuto c name hm hget => exact World.get_put_ne _ _ _ _ hj
+    | destroyAuto c name _ hm hget => exact World.get_put_ne _ _ _ _ hj
     | save c name o hget => rfl
 
 end FFSM2
